@@ -7,7 +7,7 @@ from ..strcorpus import FIELD_NAMES
 from .c07 import all_idents, DICT, RUST_KEYWORDS
 
 IDENTS = ['Red', 'HTTPServer', 'Foo2Bar', 'A1', 'Hello2You', 'XMLHttpRequest', 'IOError', 'Utf8', 'B2B', 'Plain', 'Mixed_Case_9', 'V2Beta3', 'Ab_cD', 'Task',
-          'Kind9', 'x9', 'Foo_1', 'R2D2', 'Abc123Def', 'NaN']
+          'Kind9', 'x9', 'Foo_1', 'R2D2', 'Abc123Def', 'NaN', '_2D', '_1', '_3dPoint']
 TUPLES = [[], ['u8'], ['u8', 'String'], ['bool', 'i32', 'String'], ['i64', 'u16'], ['String', 'OptU8', 'u32']]
 OTHER_KINDS = [('unit', []), ('named', ['i32']), ('named', ['u8', 'String']), ('named', [])]
 
@@ -61,6 +61,16 @@ def generate(tier, rng):
                 v.dis = (s == 'D')
                 e.variants.append(v)
             e.extra['shape'] = 'tiny %s %s' % (''.join(shape), kind)
+            enums.append(e)
+    # a DISABLED variant whose snake name equals an enabled variant's: it has no method, and the enabled one's is false for it
+    for j, idents in enumerate((['HttpServer', '!HTTPServer', 'Plain'], ['!UnixSocket', 'UNIXSocket', 'Tail'], ['V1', 'Mid', '!V_1'])):
+        for kind in ('unit', 'tuple1'):
+            e = ESpec(id='c13c%d%s' % (j, kind), name='EnC13c%d%s' % (j, kind), derives=['EnumIs', 'EnumTryAs'], feats=['is', 'tryas', 'absent'])
+            for i in idents:
+                v = VSpec(ident=i.lstrip('!'), dis=i.startswith('!')) if kind == 'unit' else VSpec(ident=i.lstrip('!'), dis=i.startswith('!'), kind='tuple', ftypes=['u8'])
+                e.variants.append(v)
+            e.extra['shape'] = 'disabled variant with the snake name of an enabled one (%s)' % kind
+            e.extra['no_noise'] = True
             enums.append(e)
     # the model tells the harness which methods exist and what they are called
     lines = []
